@@ -102,6 +102,8 @@ type WEv struct {
 	Len int
 }
 
+var closeFaultCount atomic.Int64 // close faults injected so far in this worker (every second one is produced inside the drive manager)
+
 // Seams observes (and optionally perturbs) everything STFS does through values the caller supplies.
 type Seams struct {
 	progress atomic.Int64
@@ -411,6 +413,7 @@ type Rig struct {
 	Meta  config.MetadataConfig
 	Pipes config.PipeConfig
 	RC    config.CryptoConfig
+	rawDrive    io.Closer // the descriptor the drive manager handed out for the operation in progress
 	WCr   config.CryptoConfig
 	BE    config.BackendConfig
 	ROps  *operations.Operations
@@ -483,6 +486,7 @@ func NewRig(dir string, cfg Cfg) (*Rig, error) {
 				s.driveSz = st.Size()
 				s.mu.Unlock()
 			}
+			r.rawDrive, _ = w.Drive.(io.Closer)
 			w.Drive = &driveW{w: w.Drive, s: s}
 			if cfg.TapeMode {
 				w.DriveIsRegular = false
@@ -492,6 +496,15 @@ func NewRig(dir string, cfg Cfg) (*Rig, error) {
 		CloseWriter: func() error {
 			// fault model for closing: the drive is closed and released, and the close then reports an error (close(2) returning EIO)
 			ferr := s.hit("closew")
+			if ferr != nil && closeFaultCount.Load()%2 == 1 && r.rawDrive != nil {
+				// every second close fault is produced by the drive manager's OWN close: the descriptor is closed under it, so that
+				// its close reports a real error (what close(2) answering EIO looks like from inside)
+				_ = r.rawDrive.Close()
+			}
+			if ferr != nil {
+				closeFaultCount.Add(1)
+			}
+			r.rawDrive = nil
 			err := r.TM.Close()
 			if ferr != nil {
 				return ferr
@@ -506,11 +519,19 @@ func NewRig(dir string, cfg Cfg) (*Rig, error) {
 			if err != nil {
 				return rd, err
 			}
+			r.rawDrive, _ = rd.Drive.(io.Closer)
 			rd.Drive = &driveR{r: rd.Drive, s: s}
 			return rd, nil
 		},
 		CloseReader: func() error {
 			ferr := s.hit("closer")
+			if ferr != nil && closeFaultCount.Load()%2 == 1 && r.rawDrive != nil {
+				_ = r.rawDrive.Close()
+			}
+			if ferr != nil {
+				closeFaultCount.Add(1)
+			}
+			r.rawDrive = nil
 			err := r.TM.Close()
 			if ferr != nil {
 				return ferr
